@@ -73,7 +73,11 @@ Footers == {[kind |-> "footer", text |-> FooterText(h, a, b), noend |-> FALSE] :
            \cup {[kind |-> "footer", text |-> Heads[h] \o Comma \o b \o Comma \o a, noend |-> FALSE] :
                    h \in {1}, a \in EveryMonth, b \in {Rules[1], <<"J","6","0">>}}
 
-Structural == Counts \cup Cuts \cup Versions \cup Versions2 \cup TypeIdx \cup TypeRecs \cup Magic
+\* transition times at the extremes of their width (the first at the minimum and the last at the maximum keep the table
+\* sorted; the other combinations do not): differences with a probed instant then leave the 64-bit range
+TransTimes == {[kind |-> "transtime", which |-> w, val |-> v] : w \in {"first", "last", "all"},
+                                                               v \in {"min", "minp1", "minpday", "max", "maxm1", "maxmday", "zero", "neg1"}}
+Structural == Counts \cup Cuts \cup Versions \cup Versions2 \cup TypeIdx \cup TypeRecs \cup Magic \cup TransTimes
 
 Cases(z) == {Case(s, m) : s \in {x \in Seeds : InShard(x)}, m \in Structural}
             \cup {Case(s, m) : s \in {0, 2, 4, 5}, m \in {f \in Footers : InShard(Len(f.text))}}
